@@ -94,6 +94,10 @@ func run(c *lib.Ctx) error {
 	depthM := c.Pick(3, 5)
 	mdone := make(chan error, 1)
 	go func() {
+		if os.Getenv("VERIF_DEV_SKIP") == "M" { // development only (mutant trials): M does not depend on /repo
+			mdone <- nil
+			return
+		}
 		r, err := c.TLC("MCEqKeys(M)", lib.TLCRun{Dir: s.dir, Module: "MCEqKeys", Workers: 2, Timeout: 20 * time.Minute, Coverage: false,
 			Files: map[string][]byte{"MCEqKeys.cfg": []byte(mcCfg(depthM, "M"))}})
 		if err == nil && r.ErrKind != "" {
